@@ -192,7 +192,7 @@ structure RefinesL (B : List String) (idx : Nat) (dg : DG.Graph) (ra : Relation)
 /-- the statement proved for every node by induction on its size -/
 def NodeRefines (B : List String) (P : Node → Prop) (n : Node) : Prop :=
   ∀ cmd, desugar n = some cmd → cmd.loopFree = true → P n →
-    ∀ idx dg, ∃ out, Analysis.compute idx dg n = .ok out ∧ Refines B idx dg cmd out
+    ∀ (q : Bool) idx dg, ∃ out, Analysis.compute q idx dg n = .ok out ∧ Refines B idx dg cmd out
 
 theorem RefinesL.nil (idx : Nat) (dg : DG.Graph) (ra : Relation) (sk : List String) (hra : ra.WF) :
     RefinesL B idx dg ra sk [] ⟨idx, [ra], false, dg, sk⟩ := by
@@ -258,16 +258,16 @@ theorem RefinesL.cons {idx : Nat} {dg : DG.Graph} {ra r1 : Relation} {sk : List 
 theorem computeList_refines (B : List String) (P : Node → Prop) (l : List Node) :
     ∀ (cs : List Cmd), desugarL l = some cs → loopFreeL cs = true → (∀ n ∈ l, P n) →
     (∀ n ∈ l, NodeRefines B P n) →
-    ∀ (idx : Nat) (dg : DG.Graph) (ra : Relation) (sk : List String), ra.WF →
-      ∃ out, Analysis.computeList idx dg [ra] sk l = .ok out ∧ RefinesL B idx dg ra sk cs out := by
+    ∀ (q : Bool) (idx : Nat) (dg : DG.Graph) (ra : Relation) (sk : List String), ra.WF →
+      ∃ out, Analysis.computeList q idx dg [ra] sk l = .ok out ∧ RefinesL B idx dg ra sk cs out := by
   induction l with
   | nil =>
-    intro cs hd _ _ _ idx dg ra sk hra
+    intro cs hd _ _ _ q idx dg ra sk hra
     simp only [desugarL, Option.some.injEq] at hd
     subst hd
     exact ⟨_, by rw [Analysis.computeList]; rfl, RefinesL.nil idx dg ra sk hra⟩
   | cons n ns ih =>
-    intro cs hd hlf hP IH idx dg ra sk hra
+    intro cs hd hlf hP IH q idx dg ra sk hra
     rw [desugarL] at hd
     cases hdn : desugar n with
     | none => simp [hdn] at hd
@@ -278,13 +278,13 @@ theorem computeList_refines (B : List String) (P : Node → Prop) (l : List Node
         simp only [hdn, hdl, Option.some.injEq] at hd
         subst hd
         simp only [loopFreeL, Bool.and_eq_true] at hlf
-        obtain ⟨o1, ho1, R1⟩ := IH n (List.mem_cons_self ..) cmd hdn hlf.1 (hP n (List.mem_cons_self ..)) idx dg
+        obtain ⟨o1, ho1, R1⟩ := IH n (List.mem_cons_self ..) cmd hdn hlf.1 (hP n (List.mem_cons_self ..)) q idx dg
         obtain ⟨r1, hr1, w1, _, _⟩ := R1.rel
         have hacc : RelList.composition [ra] o1.rels = [Relation.composition ra r1] := by
           rw [hr1, relList_composition_single]
         have wacc := Relation.composition_wf ra r1 hra w1
         obtain ⟨o2, ho2, R2⟩ := ih cs' hdl hlf.2 (fun m hm => hP m (List.mem_cons_of_mem _ hm))
-          (fun m hm => IH m (List.mem_cons_of_mem _ hm)) o1.index o1.dg
+          (fun m hm => IH m (List.mem_cons_of_mem _ hm)) q o1.index o1.dg
           (Relation.composition ra r1) (sk ++ o1.skipped) wacc
         refine ⟨o2, ?_, RefinesL.cons hra R1 hr1 R2⟩
         rw [Analysis.computeList, ho1]
@@ -384,16 +384,16 @@ theorem refines_ite {idx : Nat} {dg : DG.Graph} {a b : Cmd} {rt rf : Analysis.Ou
 
 /-- without exits `if_branch`'s item walk is `compound`'s -/
 theorem branchList_eq_computeList (l : List Node) :
-    (∀ n ∈ l, ∀ idx dg, ∃ out, Analysis.compute idx dg n = .ok out ∧ out.exit = false) →
-    ∀ idx dg acc sk, Analysis.branchList idx dg acc sk l = Analysis.computeList idx dg acc sk l := by
+    (∀ n ∈ l, ∀ q idx dg, ∃ out, Analysis.compute q idx dg n = .ok out ∧ out.exit = false) →
+    ∀ q idx dg acc sk, Analysis.branchList q idx dg acc sk l = Analysis.computeList q idx dg acc sk l := by
   induction l with
-  | nil => intro _ idx dg acc sk; rw [Analysis.branchList, Analysis.computeList]
+  | nil => intro _ q idx dg acc sk; rw [Analysis.branchList, Analysis.computeList]
   | cons n ns ih =>
-    intro h idx dg acc sk
-    obtain ⟨o, ho, he⟩ := h n (List.mem_cons_self ..) idx dg
+    intro h q idx dg acc sk
+    obtain ⟨o, ho, he⟩ := h n (List.mem_cons_self ..) q idx dg
     rw [Analysis.branchList, Analysis.computeList, ho]
     simp only [bind, Except.bind, he]
-    exact ih (fun m hm => h m (List.mem_cons_of_mem _ hm)) _ _ _ _
+    exact ih (fun m hm => h m (List.mem_cons_of_mem _ hm)) _ _ _ _ _
 
 end Refine
 end Mwp
